@@ -10,6 +10,8 @@ open Vegeta.Go
 /-- error classes of the codec models -/
 def eSyntax : Nat := 1
 def eRange : Nat := 2
+/-- stands for `io.EOF` returned as an error value (callers cannot tell it from a clean end of stream) -/
+def eEOF : Nat := 7
 
 /-- decimal digits, least significant first (`fuel` > number of digits suffices) -/
 def digitsRev : Nat → Nat → List Nat
